@@ -13,7 +13,7 @@ Inductive cmut := MSend      (* session.sendMutex *)
 Inductive capp := AToAdmin | AToApp.
 
 (* integer expressions of resendMessages *)
-Inductive cexpr := EBegin | EEnd1 (* endSeqNo+1 *) | ESent (* sentMessageSeqNum *) | ESent1 (* sentMessageSeqNum+1 *)
+Inductive cexpr := EBegin | EEnd (* endSeqNo *) | EEnd1 (* endSeqNo+1 *) | ESent (* sentMessageSeqNum *) | ESent1 (* sentMessageSeqNum+1 *)
                  | EVSeq (* seqNum *) | EVNext (* nextSeqNum *).
 Inductive cvar := VSeq | VNext.
 
@@ -25,6 +25,7 @@ Inductive ccond :=
 | CResetFlag                 (* resetSeqNumFlag.Bool() *)
 | CNoPersist                 (* s.DisableMessagePersist *)
 | CNeq (a b : cexpr)         (* a != b *)
+| CGt (a b : cexpr)          (* a > b *)
 | COther                     (* a condition the translator does not interpret: either branch may be taken *)
 | CNot (c : ccond).
 
